@@ -1125,6 +1125,25 @@ static int mps_write_col (
 	int intmode,
 	char *objname);
 
+/* The name of the RHS / RANGES / BOUNDS set: base, or base_0, base_1, ... - the first one that no row (column)
+ * carries.  The reader takes a set name that is also a row (column) name for the row (column) itself when a
+ * number follows (ILLmps_possibly_blank_name), so a row called RHS together with a row called 1 made the
+ * written file unreadable or, worse, readable as a different problem. */
+static void mps_set_name (
+	ILLsymboltab * tab,
+	const char *avoid,
+	const char *base,
+	char *buf)
+{
+	int k = 0;
+
+	strcpy (buf, base);
+	while (ILLsymboltab_contains (tab, buf) || (avoid != NULL && strcmp (buf, avoid) == 0))
+	{
+		sprintf (buf, "%s_%d", base, k++);
+	}
+}
+
 int EGLPNUM_TYPENAME_ILLwrite_mps (
 	EGLPNUM_TYPENAME_ILLlpdata * lp,
 	EGLPNUM_TYPENAME_qserror_collector * collector)
@@ -1137,6 +1156,7 @@ int EGLPNUM_TYPENAME_ILLwrite_mps (
 	char **rownames = (char **) NULL;
 	EGLPNUM_TYPENAME_ILLlp_rows lp_rows, *lprows = NULL;
 	char buf[ILL_namebufsize];
+	char rhsname[32], rngname[32], bndname[32];
 	char *objname = NULL;
 	char *str;
 
@@ -1156,6 +1176,9 @@ int EGLPNUM_TYPENAME_ILLwrite_mps (
 		ILL_CLEANUP_IF (rval);
 		ILL_UTIL_STR (objname, buf);
 	}
+	mps_set_name (&lp->rowtab, objname, "RHS", rhsname);
+	mps_set_name (&lp->rowtab, objname, "RANGE", rngname);
+	mps_set_name (&lp->coltab, NULL, "BOUND", bndname);
 	EGLPNUM_TYPENAME_ILLprint_report (lp, "NAME    %s\n", lp->probname);
 	EGLPNUM_TYPENAME_ILLprint_report (lp, "OBJSENSE\n  %s\n",
 									 (lp->objsense == EGLPNUM_TYPENAME_ILL_MIN) ? "MIN" : "MAX");
@@ -1254,7 +1277,7 @@ int EGLPNUM_TYPENAME_ILLwrite_mps (
 		if ((lprows->rowcnt[i] != 0) && EGLPNUM_TYPENAME_EGlpNumIsNeqqZero (lp->rhs[i]))
 		{
 			str = EGLPNUM_TYPENAME_EGlpNumGetStr(lp->rhs[i]);
-			EGLPNUM_TYPENAME_ILLprint_report (lp, " RHS    %s    %s\n", rownames[i], str);
+			EGLPNUM_TYPENAME_ILLprint_report (lp, " %s    %s    %s\n", rhsname, rownames[i], str);
 			EGfree(str);
 		}
 	}
@@ -1269,7 +1292,7 @@ int EGLPNUM_TYPENAME_ILLwrite_mps (
 					(lp->sense[i] == 'R' || EGLPNUM_TYPENAME_EGlpNumIsNeqqZero (lp->rangeval[i])))
 			{
 				str = EGLPNUM_TYPENAME_EGlpNumGetStr(lp->rangeval[i]);
-				EGLPNUM_TYPENAME_ILLprint_report (lp, " RANGE    %s    %s\n", rownames[i], str);
+				EGLPNUM_TYPENAME_ILLprint_report (lp, " %s    %s    %s\n", rngname, rownames[i], str);
 				EGfree(str);
 			}
 		}
@@ -1285,14 +1308,14 @@ int EGLPNUM_TYPENAME_ILLwrite_mps (
 			if (EGLPNUM_TYPENAME_EGlpNumIsEqqual (lp->lower[i], lp->upper[i]))
 			{
 				str = EGLPNUM_TYPENAME_EGlpNumGetStr(lp->lower[i]);
-				EGLPNUM_TYPENAME_ILLprint_report (lp, " FX BOUND    %s    %s\n", colnames[ri], str);
+				EGLPNUM_TYPENAME_ILLprint_report (lp, " FX %s    %s    %s\n", bndname, colnames[ri], str);
 				EGfree(str);
 				continue;
 			}
 			if ((EGLPNUM_TYPENAME_EGlpNumIsEqqual (lp->lower[i], EGLPNUM_TYPENAME_ILL_MINDOUBLE)) &&
 					(EGLPNUM_TYPENAME_EGlpNumIsEqqual (lp->upper[i], EGLPNUM_TYPENAME_ILL_MAXDOUBLE)))
 			{
-				EGLPNUM_TYPENAME_ILLprint_report (lp, " FR BOUND    %s\n", colnames[ri]);
+				EGLPNUM_TYPENAME_ILLprint_report (lp, " FR %s    %s\n", bndname, colnames[ri]);
 				continue;
 			}
 			prtLower = !EGLPNUM_TYPENAME_ILLraw_default_lower (lp, i);
@@ -1301,12 +1324,12 @@ int EGLPNUM_TYPENAME_ILLwrite_mps (
 			{
 				if (EGLPNUM_TYPENAME_EGlpNumIsEqqual (lp->lower[i], EGLPNUM_TYPENAME_ILL_MINDOUBLE))
 				{
-					EGLPNUM_TYPENAME_ILLprint_report (lp, " MI BOUND    %s\n", colnames[ri]);
+					EGLPNUM_TYPENAME_ILLprint_report (lp, " MI %s    %s\n", bndname, colnames[ri]);
 				}
 				else
 				{
 					str = EGLPNUM_TYPENAME_EGlpNumGetStr(lp->lower[i]);
-					EGLPNUM_TYPENAME_ILLprint_report (lp, " LO BOUND    %s    %s\n", colnames[ri], str);
+					EGLPNUM_TYPENAME_ILLprint_report (lp, " LO %s    %s    %s\n", bndname, colnames[ri], str);
 					EGfree(str);
 				}
 			}
@@ -1314,12 +1337,12 @@ int EGLPNUM_TYPENAME_ILLwrite_mps (
 			{
 				if (EGLPNUM_TYPENAME_EGlpNumIsEqqual (lp->upper[i], EGLPNUM_TYPENAME_ILL_MAXDOUBLE))
 				{
-					EGLPNUM_TYPENAME_ILLprint_report (lp, " PL BOUND    %s\n", colnames[ri]);
+					EGLPNUM_TYPENAME_ILLprint_report (lp, " PL %s    %s\n", bndname, colnames[ri]);
 				}
 				else
 				{
 					str = EGLPNUM_TYPENAME_EGlpNumGetStr(lp->upper[i]);
-					EGLPNUM_TYPENAME_ILLprint_report (lp, " UP BOUND    %s    %s\n", colnames[ri], str);
+					EGLPNUM_TYPENAME_ILLprint_report (lp, " UP %s    %s    %s\n", bndname, colnames[ri], str);
 					EGfree(str);
 				}
 			}
